@@ -1,8 +1,9 @@
 SPECIFICATION Spec
 CONSTANTS
  Hs = {h1, h2}
- Threads = 1
- Pinned = FALSE
- Dev = {"held", "sync_remove"}
+ Threads = 2
+ Pinned = TRUE
+ Dev = {}
 INVARIANTS NeverStuck
+PROPERTY Terminates
 CHECK_DEADLOCK FALSE
